@@ -204,6 +204,11 @@ pub trait Driver: Send + Sync {
     /// Read bytes into a transcript. `doc` supplies side information a reader legitimately needs
     /// (the CRAM reference).
     fn read(&self, data: &Arc<Vec<u8>>, d: &Delivery, doc: &Doc, opts: &ReadOpts) -> (Transcript, SrcStats);
+    /// For writers that need to own a `'static + Send` sink (the multithreaded BGZF writer):
+    /// write straight into the given handle. `None` = use `write`.
+    fn write_owned(&self, _doc: &Doc, _sink: Box<dyn crate::io_adv::faulty::DynSink>) -> Option<io::Result<()>> {
+        None
+    }
     /// Has an async twin (reader, writer).
     fn has_async(&self) -> (bool, bool) {
         (false, false)
